@@ -801,7 +801,7 @@ pub fn run_check(ctx: &mut Ctx) {
     if std::env::var("MV_MAX_SHRINK").is_err() {
         std::env::set_var("MV_MAX_SHRINK", "120");
     }
-    ctx.rule = "a scratch project (generated main.asm importing lib.asm, a documented label, a test, a file outside the project) and one `mos lsp` process; histories of 1-80 operations: didOpen / didChange by typed single characters (insert, delete: passes through broken states), line replacements, whole-text replacements, restore / didClose of main file, imported file, a new file that is not on disk and a document that is not a file at all (`untitled:` URI), change notifications without changes, interleaved with all 13 supported request kinds at positions of 7 kinds (inside identifier, token boundary, start/end of line, beyond end of line, beyond end of file, inside a multi-byte character) in open, closed and non-project documents. oracle: every request is answered and the process lives; every returned range lies inside the addressed document's current text and semantic tokens decode to sorted non-overlapping non-empty in-line ranges; after the history the last published diagnostics per file and the answers to a fixed battery equal those of two freshly started servers that only receive didOpen of the final buffers (answers on which the two fresh servers disagree are reported as nondeterministic and left out). non-trivial = >= 2 edits with a broken intermediate state, a close after an unsaved change, or an out-of-range position".into();
+    ctx.rule = "a scratch project (generated main.asm importing lib.asm, a documented label, a test, a file outside the project) and one `mos lsp` process; histories of 1-80 operations: didOpen / didChange by typed single characters (insert, delete: passes through broken states), line replacements (among them lines with comments that span lines and non-BMP characters, and nesting / sums beyond what the parser accepts), whole-text replacements, restore / didClose of main file, imported file, a new file that is not on disk and a document that is not a file at all (`untitled:` URI), change notifications without changes, interleaved with all 13 supported request kinds at positions of 7 kinds (inside identifier, token boundary, start/end of line, beyond end of line, beyond end of file, inside a multi-byte character) in open, closed and non-project documents. oracle: every request is answered and the process lives; every returned range lies inside the addressed document's current text and semantic tokens decode to sorted non-overlapping non-empty in-line ranges; after the history the last published diagnostics per file and the answers to a fixed battery equal those of two freshly started servers that only receive didOpen of the final buffers (answers on which the two fresh servers disagree are reported as nondeterministic and left out). non-trivial = >= 2 edits with a broken intermediate state, a close after an unsaved change, or an out-of-range position".into();
     if !have_mos() {
         ctx.health(false, "mos binary not built (MOS_BIN)");
         return;
